@@ -518,6 +518,34 @@ def main():
                 continue
             violations.append((full, v['replay'], v.get('witness')))
 
+    # bounded stand-ins registered for clauses the verifiers cannot reach (e.g. int/float comparison arms):
+    # enumerated on the real code, labelled bounded, never counted as discharged
+    bounded_runs = []
+    for oname, what in cfg.get('bounded', []):
+        binp, err = build_replay(a.repo)
+        if not binp:
+            undecided.append('cannot build replay crate for bounded stand-in: ' + err[-200:])
+            break
+        try:
+            wit, summ = find_witness(binp, oname, seed)
+        except subprocess.TimeoutExpired:
+            wit, summ = None, None
+        bounded_runs.append({'oracle': oname, 'what': what, 'cases': (summ or {}).get('cases'), 'failures': (summ or {}).get('failures'),
+                             'skipped_outside_claim': (summ or {}).get('skipped_outside_claim'), 'sample': (summ or {}).get('sample'),
+                             'result': 'failing input found' if wit else 'no failing input (bounded, not counted)'})
+        if wit:
+            full = 'bounded stand-in: oracle %s' % oname
+            case = wit['case']
+            if any(k['property'] == prop and k['obligation'] == full and k['input'] == case for k in known):
+                known_hits.append((full, case, {'what': ''}))
+                continue
+            h = hashlib.sha1((full + case).encode()).hexdigest()[:10]
+            path = os.path.join(BUILD, 'replay_cases', '%s-%s.json' % (prop, h))
+            json.dump({'property': prop, 'obligation': full, 'verifier_message': 'bounded stand-in (' + what + ')',
+                       'verifier_output': 'failing input found by the bounded enumeration %s on the real code' % oname,
+                       'oracle': oname, 'witness': wit, 'search': summ, 'bounded': True}, open(path, 'w'), indent=1)
+            violations.append((full, path, wit))
+
     wall = time.time() - t0
 
     # ---- evidence
@@ -596,7 +624,7 @@ def main():
             'solver_time_s': {k: v for k, v in sorted(solver.items(), key=lambda kv: -kv[1])[:25]},
             'rewrites': rewrites,
             'canaries': {'expected_to_fail': canary_total, 'failed_as_required': canary_failed_as_required},
-            'bounded': (kani_res or {}).get('bounded', []),
+            'bounded': (kani_res or {}).get('bounded', []) + bounded_runs,
             'not_covered_clauses': cfg.get('not_covered', []),
             'undecided': undecided,
             'known_findings_hit': [k[0] for k in known_hits],
@@ -608,6 +636,19 @@ def main():
         'wall_s': round(wall, 2),
         'violations': len(violations),
     }
+    if config.LEVEL.get(prop) == 'exploration':
+        # a property decided only by a bounded stand-in: report it as what it is
+        ev_cases = sum((b.get('cases') or 0) for b in bounded_runs)
+        ev_skipped = sum((b.get('skipped_outside_claim') or 0) for b in bounded_runs)
+        ev['coverage'].update({
+            'evaluations': ev_cases,
+            'distinct_nontrivial': max(0, ev_cases - ev_skipped),
+            'rule': 'cases are enumerated by the replay oracle(s) ' + ', '.join(b['oracle'] for b in bounded_runs)
+                    + ' (exhaustive over a fixed pool for small arities, seeded random beyond), de-duplicated before running; a case is non-trivial when it is inside the claim '
+                    + '(the oracle counts the cases it skips as outside the claim: integer overflow, integer division by zero, literals that cannot be written in source text)',
+            'samples': [b.get('sample') for b in bounded_runs if b.get('sample')] + ev['coverage'].get('samples', []),
+            'exhaustive': False,
+        })
     if not a.no_evidence:
         os.makedirs(os.path.join(VERIF, 'evidence'), exist_ok=True)
         json.dump(ev, open(os.path.join(VERIF, 'evidence', prop + '.json'), 'w'), indent=1)
